@@ -148,6 +148,53 @@ def run(rep, tier="quick", replay=None, evidence_dir=None, collect_only=False):
     rep.floor("C13.R2", "count-returning writer functions", len(in_scope), 95)
     rep.floor("C13.R2", "count-returning write calls", n_calls, 155)
 
+    # R2 (continued): the byte count a sub-serializer starts from (`bytes_written` parameter) is a number of bytes: nothing,
+    # the caller's own running count, or a count returned by a write call - never another quantity such as an entry count
+    n2b = 0
+    for b in bodies:
+        for bi, t in b.calls():
+            cal = None
+            for nme in reversed(callee_names(t["func"])):
+                if nme in prog.bodies and prog.bodies[nme].kind != "Closure":
+                    cal = prog.bodies[nme]
+                    break
+            if cal is None:
+                continue
+            for pi in range(1, cal.argc + 1):
+                if (cal.local_name(pi) or "") != "bytes_written" or pi - 1 >= len(t["args"]):
+                    continue
+                a = t["args"][pi - 1]
+                n2b += 1
+                ok2 = False
+                why2 = b.opdesc(a)
+                if a.get("k") == "const":
+                    ok2 = True     # a literal (None is a constant for Option<usize>)
+                elif a.get("k") in ("copy", "move"):
+                    r_ = b.resolve_operand(a)
+                    root = r_[0] if r_ else None
+                    sd_ = b.single_def(root) if root is not None else None
+                    if root is not None and 1 <= root <= b.argc:
+                        ok2 = "bytes_written" in (b.local_name(root) or "") or "bytes_written" in b.opdesc(a)
+                        why2 = "parameter `%s`" % (b.local_name(root) or b.opdesc(a))
+                    elif sd_ and sd_[2] == "assign" and sd_[3]["r"] == "agg" and sd_[3].get("adt") == "std::option::Option":
+                        if sd_[3].get("variant") == "None":
+                            ok2 = True
+                        else:
+                            inner = sd_[3]["ops"][0]
+                            # Some(x): x comes from a count-returning write (its Ok payload) or from the caller's running count
+                            cnt_src = [tt["dest"]["l"] for _, tt in b.calls() if not tt["dest"]["p"] and is_count_ty(b.local_ty(tt["dest"]["l"]) or "")]
+                            tainted2 = forward_taint(b, cnt_src, through_calls=True) if cnt_src else set()
+                            il = op_local(inner)
+                            ok2 = (il in tainted2) or "bytes_written" in b.opdesc(inner) or (inner.get("k") == "const")
+                            why2 = "Some(%s)" % b.opdesc(inner)
+                    elif "bytes_written" in b.opdesc(a):
+                        ok2 = True
+                inst = "%s starts %s's byte count from a byte count" % (b.path if b.kind != "Closure" else b.parent, cal.path.split("::")[-2] + "::" + cal.path.split("::")[-1])
+                k = sum(1 for o in rep.obligations if o["rule"] == "C13.R2" and o["instance"].startswith(inst))
+                rep.ob("C13.R2", inst + ("" if not k else " #%d" % (k + 1)), ok2,
+                       "the sub-serializer's running byte count is initialised with %s, which is not a number of bytes written: the count returned to the caller is wrong by that amount" % why2, b.loc(bi))
+    rep.floor("C13.R2", "sub-serializer constructions with an initial byte count", n2b, 20)
+
     # ---------- R3 ----------
     n3 = 0
     for b in bodies:
